@@ -1353,23 +1353,34 @@ def rule_reporter_ready(ctx, facts, rule):
 
 
 def rule_collect_ids(ctx, facts, rule):
-    """start_collect hands out a fresh id and announces exactly that id to the collector."""
+    """start_collect hands out a fresh id and announces exactly that id to the collector. Fresh means: the value IS the result of one
+    fetch_add on the process-wide counter; an id that is computed (per-thread blocks, arithmetic on a cached value) may be unique or
+    not -- that is arithmetic this rule cannot follow, and two live traces with one id cancel / commit each other."""
+    from .core import inline_calls
     prov = Prov(facts)
-    fn = facts.fn("fastrace::collector::global_collector::GlobalCollect::start_collect")
-    if fn is None:
+    fn0 = facts.fn("fastrace::collector::global_collector::GlobalCollect::start_collect")
+    if fn0 is None:
         ctx.fail(rule, "GlobalCollect::start_collect", "-", "anchor exists", "anchor lost", extra="anchor")
         return
-    fa = fn.calls_re(r"atomic::Atomic(Usize)?(::<usize>)?::fetch_add$", cleanup=False)
-    ok = len(fa) == 1 and fn.term(fa[0])["args"][1].get("v") not in (0, None)
-    cons = [c for c in constructions(facts, "fastrace::collector::command::StartCollect", crates=["fastrace"]) if c[0] is fn]
+    fn = inline_calls(facts, fn0, lambda g: g.path.startswith("fastrace::collector::") and not re.search(r"send_command$|force_send_command$", g.path)
+                      and " as " not in g.path, depth=3)
+    FA = r"atomic::Atomic(Usize)?(::<usize>)?::fetch_add$"
+    fa = fn.calls_re(FA, cleanup=False)
+    ok = bool(fa) and all(fn.term(x)["args"][1].get("v") not in (0, None) for x in fa)
+    ret = prov.of_local(fn, 0)
+    not_counter = [x for x in ret if x.kind not in ("const", "agg") and not any(v[0] == "call" and re.search(FA, v[1]) for v in x.via)]
+    computed = [x for x in ret if any(v[0] in ("binop", "checked_binop") for v in x.via)]
+    cons = [c for c in constructions(facts, "fastrace::collector::command::StartCollect", crates=["fastrace"]) if c[0] is fn0]
     same = False
     if cons and fa:
         rl = root_local(fn, cons[0][3]["collect_id"])[0]
-        ret = root_local(fn, {"k": "copy", "l": 0, "p": []})[0]
-        dst = fn.term(fa[0])["dest"]["l"]
-        same = rl == dst and any(x.kind != "const" and any(v[0] == "call" and v[2] == fa[0] for v in x.via) for x in prov.of_local(fn, 0))
-    ctx.check(ok and same, rule, fn.path, fn.span, "start_collect returns NEXT_COLLECT_ID.fetch_add(c != 0) and sends StartCollect with the same id", "",
-              "fetch_add sites %s, same id sent and returned: %s" % (fa, same), extra="ids")
+        rr = root_local(fn, {"k": "copy", "l": 0, "p": []})[0]
+        same = rl == rr or rl in {fn.term(x)["dest"]["l"] for x in fa} and len(fa) == 1 and \
+            any(x.kind != "const" and any(v[0] == "call" and v[2] == fa[0] for v in x.via) for x in ret)
+    ctx.check(ok and same and not not_counter and not computed, rule, fn0.path, fn0.span,
+              "start_collect returns the result of NEXT_COLLECT_ID.fetch_add(c != 0) itself and sends StartCollect with the same id", "",
+              "fetch_add sites %s, same id sent and returned: %s, origins of the id that are not the counter: %s, arithmetic on the id: %s"
+              % (fa, same, origin_strs(not_counter, 4), origin_strs(computed, 3)), extra="ids")
 
 
 def rule_not_sampled_sentinel(ctx, facts, rule):
